@@ -7,5 +7,6 @@ Extraction Language OCaml.
 Separate Extraction
   BinInt.Z.add BinInt.Z.mul BinInt.Z.opp BinInt.Z.div_eucl BinInt.Z.compare BinInt.Z.of_nat BinInt.Z.to_nat
   BinNat.N.add BinNat.N.mul BinNat.N.div_eucl BinInt.Z.of_N BinInt.Z.to_N
-  Mux.init Mux.step Mux.run Mux.cfg_socket Mux.cfg_udp Mux.cfg_reverse Mux.c_find Mux.t_find
-  Mux.no_reuse_step Mux.window_step Mux.dead Mux.own_b Mux.orphan_b Mux.index_of.
+  Mux.init Mux.step Mux.run Mux.cfg_socket Mux.cfg_udp Mux.cfg_udp_old Mux.cfg_reverse Mux.c_find Mux.t_find
+  Mux.no_reuse_step Mux.window_step Mux.registers Mux.others_harmless Mux.others_near Mux.harmless Mux.dead
+  Mux.own_b Mux.orphan_b Mux.index_of.
